@@ -185,6 +185,7 @@ def get_libxc_mgga_baseline(xcid, rho, sigma, tau):
     # rho = np.ascontiguousarray(rho)
     sigma = np.asfortranarray(sigma)
     # sigma = np.ascontiguousarray(sigma)
+    tau = np.asfortranarray(tau)
     exc = np.zeros(size)
     vrho = np.zeros_like(rho, order="F")
     vsigma = np.zeros_like(sigma, order="F")
